@@ -62,6 +62,18 @@ def build_cxx(targets):
         return True, ""
     tg = [os.path.join(BUILD, t) for t in targets]
     rc, out, err = sh(["make", "-C", BUILD, "-j16"] + tg, timeout=3600)
+    # a link that was interrupted (or raced with another process linking the same file) can leave an
+    # empty / non-executable target that make then takes for up to date: remove such files and build once more
+    stale = [t for t in tg if not (os.path.isfile(t) and os.path.getsize(t) > 0 and os.access(t, os.X_OK))]
+    if rc != 0 or stale:
+        for t in stale:
+            try:
+                os.remove(t)
+            except OSError:
+                pass
+        time.sleep(2)
+        rc, out2, err2 = sh(["make", "-C", BUILD, "-j16"] + tg, timeout=3600)
+        out, err = out + out2, err + err2
     return rc == 0, out + err
 
 
